@@ -109,7 +109,7 @@ def c09_cases(rng, n):
                 tname, case["defs"] = rng.choice([
                     ("small", "small = uint .le 100\n"), ("tiny", "tiny = small\nsmall = uint .le 100\n"),
                     ("port", "port = uint .size 1\n"), ("cls", "cls = uint / nint\n"), ("neg", "neg = nint .ge -50\n"),
-                    ("al", "al = al2\nal2 = int\n")])
+                    ("rng", "rng = 2..40\n"), ("al", "al = al2\nal2 = int\n")])
                 case["types"] = [None]
                 case["target_rule"] = tname
             case["texts"] = ["%s .ne %s" % (tname, ast.lit_cddl(lit)), tname, "%s .eq %s" % (tname, ast.lit_cddl(lit))]
